@@ -357,3 +357,83 @@ pub fn stress(readers: usize, millis: u64) {
     println!("{} {}", if finished == readers + 1 { "completed" } else { "deadlock" }, total);
     std::process::exit(0);
 }
+
+/// (4) atomic views.  Between two critical sections of a handle operation the lock is free: that is exactly
+/// when another thread's read-only call can run.  The gate of hook H1 is called before every acquisition; when
+/// the handle's thread holds no guard, the gate itself makes a read-only call (`entry(path).len()`) — so every
+/// state a concurrent reader could see during the operation is observed, deterministically, on one thread.
+/// Each observed length must be the stream's length before the operation, the length a whole flush of the
+/// handle's pending data gives, or the length after the operation: an operation that publishes its effect
+/// piecewise (several critical sections, each a part of one write-back) shows a length the stream never had
+/// before or after a whole stream operation.
+pub fn atomic() {
+    use std::cell::Cell;
+    use std::sync::Mutex;
+    thread_local! { static IN_GATE: Cell<bool> = const { Cell::new(false) }; }
+    let mut evaluations = 0u64;
+    let mut total_views = 0u64;
+    for version in [Version::V3, Version::V4] {
+        let comp: &'static mut CompoundFile<SharedFile> = Box::leak(Box::new(build(version)));
+        let mut st = comp.create_stream("/obs").unwrap();
+        let comp: &'static CompoundFile<SharedFile> = comp;
+        let seen: Arc<Mutex<Vec<u64>>> = Arc::new(Mutex::new(Vec::new()));
+        let observing = Arc::new(AtomicBool::new(false));
+        let (seen2, obs2) = (seen.clone(), observing.clone());
+        verif_set_gate(Some(Box::new(move |e: &VerifLockEvent| {
+            if !obs2.load(Ordering::SeqCst) || e.depth_before != 0 {
+                return;
+            }
+            if IN_GATE.with(|g| g.replace(true)) {
+                return;
+            }
+            let l = comp.entry("/obs").map(|e| e.len()).unwrap_or(u64::MAX);
+            seen2.lock().unwrap().push(l);
+            IN_GATE.with(|g| g.set(false));
+        })));
+        let kib = 1024usize;
+        let big = pattern(2200 * kib, 9);
+        let mut ops: Vec<(String, Box<dyn FnMut(&mut cfb::Stream<SharedFile>)>)> = Vec::new();
+        let b1 = big[..300 * kib].to_vec();
+        ops.push(("write 300 KiB".into(), Box::new(move |s| { let _ = s.write(&b1); })));
+        ops.push(("flush".into(), Box::new(|s| { let _ = s.flush(); })));
+        ops.push(("seek end".into(), Box::new(|s| { let _ = s.seek(SeekFrom::End(0)); })));
+        let b2 = big[..768 * kib].to_vec();
+        ops.push(("write 768 KiB".into(), Box::new(move |s| { let _ = s.write(&b2); })));
+        ops.push(("set_len 100000".into(), Box::new(|s| { let _ = s.set_len(100_000); })));
+        ops.push(("seek 0".into(), Box::new(|s| { let _ = s.seek(SeekFrom::Start(0)); })));
+        ops.push(("read 50 KiB".into(), Box::new(move |s| { let mut b = vec![0u8; 50 * 1024]; let _ = s.read(&mut b); })));
+        ops.push(("write 10".into(), Box::new(|s| { let _ = s.write(&[7u8; 10]); })));
+        ops.push(("fill_buf".into(), Box::new(|s| { let _ = s.fill_buf().map(|b| b.len()); })));
+        ops.push(("seek end".into(), Box::new(|s| { let _ = s.seek(SeekFrom::End(0)); })));
+        for i in 0..4 {
+            // single `write` calls past the buffer's maximum: each call is one operation
+            let b = big[..900 * kib].to_vec();
+            ops.push((format!("write 900 KiB (#{})", i), Box::new(move |s| { let _ = s.write(&b); })));
+        }
+        ops.push(("flush".into(), Box::new(|s| { let _ = s.flush(); })));
+        ops.push(("set_len 0".into(), Box::new(|s| { let _ = s.set_len(0); })));
+        let b3 = big[..5000].to_vec();
+        ops.push(("write 5000".into(), Box::new(move |s| { let _ = s.write(&b3); })));
+        ops.push(("set_len 70000".into(), Box::new(|s| { let _ = s.set_len(70_000); })));
+        ops.push(("flush".into(), Box::new(|s| { let _ = s.flush(); })));
+        for (name, f) in ops.iter_mut() {
+            let l0 = comp.entry("/obs").map(|e| e.len()).unwrap_or(u64::MAX);
+            let h0 = st.len();
+            seen.lock().unwrap().clear();
+            observing.store(true, Ordering::SeqCst);
+            f(&mut st);
+            observing.store(false, Ordering::SeqCst);
+            let l1 = comp.entry("/obs").map(|e| e.len()).unwrap_or(u64::MAX);
+            evaluations += 1;
+            let views = seen.lock().unwrap().clone();
+            total_views += views.len() as u64;
+            if let Some(v) = views.iter().find(|v| **v != l0 && **v != h0 && **v != l1) {
+                println!("ORACLE atomic-view: during `{}` on a handle (V{}) a read-only call between two of its critical sections sees length {} — the stream had length {} before the operation, {} is what a whole flush of the handle gives, {} is its length afterwards (views: {:?})",
+                    name, if version == Version::V3 { 3 } else { 4 }, v, l0, h0, l1, views.iter().take(12).collect::<Vec<_>>());
+            }
+        }
+        verif_set_gate(None);
+    }
+    println!("STAT evaluations {}", evaluations);
+    println!("STAT views {}", total_views);
+}
